@@ -448,6 +448,20 @@ Proof.
   - eapply IH; eauto.
 Qed.
 
+Lemma in_upd {A} (l : list A) i (x w : A) : In w (upd l i x) -> w = x \/ In w l.
+Proof.
+  revert i. induction l as [|a l IH]; intros [|i] H; simpl in *; auto.
+  - destruct H as [->|H]; auto.
+  - destruct H as [->|H]; auto. destruct (IH i H); auto.
+Qed.
+
+Lemma touch_live s i v :
+  live_inv s -> nth_error (views s) i = Some v -> live_inv (set_views s (upd (views s) i (touch_mass v))).
+Proof.
+  intros L N w Hw. simpl in Hw. apply in_upd in Hw. destruct Hw as [->|Hw]; [|exact (L w Hw)].
+  exact (L v (nth_error_In _ _ N)).
+Qed.
+
 Lemma step_live s o s' : live_inv s -> step s o = Ok s' -> live_inv s'.
 Proof.
   intros L H. destruct o; simpl in H.
@@ -480,6 +494,10 @@ Proof.
   - destruct (nth_error (views s) i); [|discriminate]. inversion H; subst. apply tcs_only_live; exact L.
   - destruct (nth_error (views s) i) as [v|]; [|discriminate].
     destruct (phase_eqb (vlabel v) l); [|discriminate]. inversion H; subst. exact L.
+  - unfold view_mass_touch in H. destruct (nth_error (views s) i) as [v|] eqn:N; [|discriminate].
+    inversion H; subst. apply touch_live; auto.
+  - unfold view_mass_write in H. destruct (nth_error (views s) i) as [v|] eqn:N; [|discriminate].
+    inversion H; subst. apply heap_only_live. apply touch_live; auto.
   - inversion H; subst. intros v Hv. exact (L v Hv).
   - destruct (nth_error (saved s) k); [|discriminate]. eapply restore_live; eauto.
 Qed.
@@ -1270,6 +1288,11 @@ Proof.
   - destruct (nth_error (views s) i); [|discriminate]. inversion H; subst. apply Same; auto. apply tcs_write_wf; exact W.
   - destruct (nth_error (views s) i) as [v|]; [|discriminate].
     destruct (phase_eqb (vlabel v) l); [|discriminate]. inversion H; subst. apply Same; auto.
+  - unfold view_mass_touch in H. destruct (nth_error (views s) i); [|discriminate]. inversion H; subst.
+    apply Same; auto.
+  - unfold view_mass_write in H. destruct (nth_error (views s) i); [|discriminate]. inversion H; subst.
+    apply Same; auto.
+    apply (heap_write_wf (set_views s _)); auto; [apply write_cell_hwf; apply W|apply write_cell_length].
   - inversion H; subst. split; [|split; [reflexivity|eexists; reflexivity]].
     pose proof (snapshot_wf s W) as SW. destruct W as (A & B & D & E).
     split; [split; [exact A|split; [exact B|split; [exact D|]]]|split; [exact Pr|]]; simpl.
@@ -1418,6 +1441,15 @@ Proof.
   intros E Im i v N Hin. exists (uncache v). rewrite E. split; [apply map_nth_error; exact N|]. auto.
 Qed.
 
+Lemma stays_touch s s' i0 v0 :
+  nth_error (views s) i0 = Some v0 -> views s' = upd (views s) i0 (touch_mass v0) -> stays s s'.
+Proof.
+  intros N0 E i v N Hin. rewrite E. destruct (Nat.eq_dec i0 i) as [->|Hne].
+  - rewrite N in N0. inversion N0; subst v0. exists (touch_mass v).
+    split; [apply nth_error_upd_same; apply nth_error_Some; congruence|]. simpl. auto.
+  - exists v. rewrite nth_error_upd_other by exact Hne. auto.
+Qed.
+
 Lemma to_single_stays s p s' : to_single s p = Ok s' -> stays s s'.
 Proof.
   unfold to_single. destruct (par s).
@@ -1484,6 +1516,10 @@ Proof.
   - destruct (nth_error (views s) i); [|discriminate]. inversion H; subst. apply stays_same. reflexivity.
   - destruct (nth_error (views s) i) as [v|]; [|discriminate].
     destruct (phase_eqb (vlabel v) l); [|discriminate]. inversion H; subst. apply stays_same. reflexivity.
+  - unfold view_mass_touch in H. destruct (nth_error (views s) i) as [v|] eqn:N; [|discriminate].
+    inversion H; subst. eapply stays_touch; eauto.
+  - unfold view_mass_write in H. destruct (nth_error (views s) i) as [v|] eqn:N; [|discriminate].
+    inversion H; subst. eapply stays_touch; eauto.
   - inversion H; subst. apply stays_same. reflexivity.
   - destruct (nth_error (saved s) k) as [d|]; [|discriminate]. unfold restore in H.
     destruct (set_phases (empty_all s) (fun p => isSome (sd_rows d p)) false) as [s1|e] eqn:S1; [|discriminate].
@@ -1508,7 +1544,7 @@ Proof.
 Qed.
 
 (* ================= initial states ================= *)
-Lemma init_single_good n p v T P : length v = n -> good (init_single n p v T P) /\ live_inv (init_single n p v T P).
+Lemma init_single_good n mw p v T P : length v = n -> good (init_single n mw p v T P) /\ live_inv (init_single n mw p v T P).
 Proof.
   intros Lv. split; [split; [|split]|].
   - unfold wf, init_single; simpl. split; [|split; [lia|split; [lia|constructor]]].
@@ -1687,4 +1723,148 @@ Proof.
         destruct (set_phases_multi_target s _ s' W H Hc) as (_ & _ & PN & Cv & _).
         intros p0 j Rn. apply Cv. rewrite (resolve_ext _ (pset_now s') p0) by (intros z; symmetry; apply PN). exact Rn. }
   split; [exact Cv|apply Pl; exact Cv].
+Qed.
+
+(* ================= the views are live on the mass basis too ================= *)
+(* the mass-basis indexer cached inside a view's indexer object wraps the row the view reads NOW *)
+Definition mass_ok (v : view) : Prop := forall c, vmass v = Some c -> c = vcell v.
+Definition mass_inv (s : st) : Prop := forall v, In v (views s) -> mass_ok v.
+
+Lemma uncache_ok v : mass_ok v -> mass_ok (uncache v).
+Proof. intros H c E. exact (H c E). Qed.
+Lemma rebind_ok r v : mass_ok v -> mass_ok (rebind r v).
+Proof.
+  intros H. unfold rebind. destruct (vin v); [|exact H].
+  destruct (rlookup r (vlabel v)); [intros c E; discriminate|apply uncache_ok; exact H].
+Qed.
+Lemma touch_ok v : mass_ok v -> mass_ok (touch_mass v).
+Proof.
+  intros H c E. simpl in E. inversion E; subst. unfold mass_cell. destruct (vmass v) as [c|] eqn:M; auto.
+Qed.
+Lemma mass_map (f : view -> view) s s' :
+  (forall v, mass_ok v -> mass_ok (f v)) -> mass_inv s -> views s' = map f (views s) -> mass_inv s'.
+Proof.
+  intros Hf M E v Hv. rewrite E in Hv. apply in_map_iff in Hv. destruct Hv as (w & <- & Hw). apply Hf. exact (M w Hw).
+Qed.
+Lemma mass_same s s' : mass_inv s -> views s' = views s -> mass_inv s'.
+Proof. intros M E v Hv. rewrite E in Hv. exact (M v Hv). Qed.
+
+Lemma to_single_mass s p s' : mass_inv s -> to_single s p = Ok s' -> mass_inv s'.
+Proof.
+  unfold to_single. intros M H. destruct (par s).
+  - inversion H; subst. eapply mass_same; eauto.
+  - destruct (Nat.eqb _ 0); [discriminate|]. inversion H; subst.
+    apply (mass_map uncache s); [apply uncache_ok|exact M|reflexivity].
+Qed.
+
+Lemma set_phases_mass s t bad s' : mass_inv s -> set_phases s t bad = Ok s' -> mass_inv s'.
+Proof.
+  unfold set_phases. intros M H. destruct (par s) as [p0 c|r0].
+  - destruct (Nat.eqb _ 1).
+    + destruct bad; [discriminate|]. eapply to_single_mass; eauto.
+    + destruct bad; [discriminate|]. destruct (blank (nch s) t (heap s)) as [h1 r].
+      destruct (any_nz (cellv (heap s) c)).
+      * destruct (rlookup r p0); [|discriminate]. inversion H; subst.
+        apply (mass_map uncache s); [apply uncache_ok|exact M|reflexivity].
+      * inversion H; subst. apply (mass_map uncache s); [apply uncache_ok|exact M|reflexivity].
+  - destruct (Nat.eqb _ 1).
+    + destruct bad; [destruct (Nat.eqb _ 0); discriminate|]. eapply to_single_mass; eauto.
+    + destruct bad; [discriminate|]. destruct (pset_eqb t (rset r0)); [inversion H; subst; exact M|].
+      destruct (blank (nch s) t (heap s)) as [h1 r].
+      destruct (move_rows all_phases r0 h1 r) as [h2|e]; [|discriminate]. simpl in H. inversion H; subst.
+      apply (mass_map (rebind r) s); [apply rebind_ok|exact M|reflexivity].
+Qed.
+
+Lemma set_phase_mass s ls s' : mass_inv s -> set_phase s ls = Ok s' -> mass_inv s'.
+Proof.
+  unfold set_phase. intros M H. destruct (par s) as [p0 c|r].
+  - destruct ls as [|q [|? ?]]; try discriminate. inversion H; subst. eapply mass_same; eauto.
+  - destruct ls as [|q [|q' l']]; [eapply to_single_mass; eauto|eapply to_single_mass; eauto|].
+    eapply set_phases_mass; eauto.
+Qed.
+
+Lemma step_mass s o s' : mass_inv s -> step s o = Ok s' -> mass_inv s'.
+Proof.
+  intros M H. destruct o; simpl in H.
+  - eapply set_phases_mass; eauto.
+  - eapply set_phase_mass; eauto.
+  - unfold reduce_phases in H. destruct (par s); [inversion H; subst; exact M|]. eapply set_phase_mass; eauto.
+  - unfold as_stream in H. destruct (par s) as [|r]; [inversion H; subst; exact M|].
+    destruct (phase_string (heap s) r) as [|q [|q' l']]; [|eapply set_phase_mass; eauto|discriminate].
+    destruct (pset_list (rset r)); [discriminate|]. eapply set_phase_mass; eauto.
+  - unfold accessor in H. destruct (acc_pair a) as [x y]. destruct (par s) as [p c|r].
+    + eapply set_phases_mass; [|exact H]. eapply mass_same; eauto.
+    + destruct (rset r x && rset r y); [inversion H; subst; exact M|]. eapply set_phases_mass; eauto.
+  - unfold get_view in H. destruct (par s) as [p c|r].
+    + destruct (lower_eqb l p); [|discriminate]. inversion H; subst. eapply mass_same; eauto.
+    + destruct (find_cached (views s) l 0); [inversion H; subst; eapply mass_same; eauto|].
+      destruct (rlookup r l); [|discriminate]. inversion H; subst.
+      intros v Hv. simpl in Hv. apply in_app_or in Hv. destruct Hv as [Hv|[<-|[]]]; [exact (M v Hv)|].
+      intros c0 E. discriminate.
+  - unfold write_view in H. destruct (nth_error (views s) i); [|discriminate]. inversion H; subst. eapply mass_same; eauto.
+  - unfold write_parent in H. destruct (par s) as [p c|r].
+    + inversion H; subst. eapply mass_same; eauto.
+    + destruct (rlookup r l); [|discriminate]. inversion H; subst. eapply mass_same; eauto.
+  - inversion H; subst. eapply mass_same; eauto.
+  - inversion H; subst. eapply mass_same; eauto.
+  - destruct (nth_error (views s) i); [|discriminate]. inversion H; subst. eapply mass_same; eauto.
+  - destruct (nth_error (views s) i); [|discriminate]. inversion H; subst. eapply mass_same; eauto.
+  - destruct (nth_error (views s) i) as [v|]; [|discriminate].
+    destruct (phase_eqb (vlabel v) l); [|discriminate]. inversion H; subst. exact M.
+  - unfold view_mass_touch in H. destruct (nth_error (views s) i) as [v|] eqn:N; [|discriminate]. inversion H; subst.
+    intros w Hw. simpl in Hw. apply in_upd in Hw. destruct Hw as [->|Hw]; [|exact (M w Hw)].
+    apply touch_ok. exact (M v (nth_error_In _ _ N)).
+  - unfold view_mass_write in H. destruct (nth_error (views s) i) as [v|] eqn:N; [|discriminate]. inversion H; subst.
+    intros w Hw. simpl in Hw. apply in_upd in Hw. destruct Hw as [->|Hw]; [|exact (M w Hw)].
+    apply touch_ok. exact (M v (nth_error_In _ _ N)).
+  - inversion H; subst. eapply mass_same; eauto.
+  - destruct (nth_error (saved s) k) as [d|]; [|discriminate]. unfold restore in H.
+    destruct (set_phases (empty_all s) (fun p => isSome (sd_rows d p)) false) as [s1|e] eqn:S1; [|discriminate].
+    simpl in H.
+    assert (M1 : mass_inv s1).
+    { eapply set_phases_mass; [|exact S1]. eapply mass_same; [exact M|]. unfold empty_all. destruct (par s); reflexivity. }
+    destruct (par s1) as [p c|r].
+    + destruct (match sd_single d with Some q => Some q | None => hd_error (pset_list (fun p0 => isSome (sd_rows d p0))) end) as [q|]; [|discriminate].
+      destruct (sd_rows d q); [|discriminate]. simpl in H. inversion H; subst. eapply mass_same; eauto.
+    + destruct (sd_single d); [discriminate|]. simpl in H. inversion H; subst. eapply mass_same; eauto.
+Qed.
+
+Lemma run_mass ops : forall s s', mass_inv s -> run s ops = Ok s' -> mass_inv s'.
+Proof.
+  induction ops as [|o ops IH]; intros s s' M H; simpl in H.
+  - inversion H; subst; exact M.
+  - destruct (step s o) as [s1|e] eqn:S1; [|discriminate]. simpl in H.
+    eapply IH; [eapply step_mass; eauto|exact H].
+Qed.
+
+(* a mass-basis read through a live view is MW times the parent's current row; a mass-basis write lands in it *)
+Lemma view_mass_reads s i v c :
+  live_inv s -> mass_inv s -> nth_error (views s) i = Some v -> vin v = true -> vmass v = Some c ->
+  exists q, resolve (pset_now s) (vlabel v) = Some q /\
+            vmul (cellv (heap s) c) (mws s) = vmul (flow s q) (mws s).
+Proof.
+  intros L M N Hin Hm. destruct (view_reads_parent s i v L N Hin) as (r & q & Ps & Rq & Rc & Ec & _).
+  rewrite (M v (nth_error_In _ _ N) c Hm). exists q. split; [unfold pset_now; rewrite Ps; exact Rq|].
+  rewrite Ec. reflexivity.
+Qed.
+
+Lemma view_mass_write_visible s i j x s' v :
+  wf s -> live_inv s -> mass_inv s -> nth_error (views s) i = Some v -> vin v = true ->
+  step s (OViewMassWrite i j x) = Ok s' ->
+  exists q, resolve (pset_now s) (vlabel v) = Some q /\
+    flow s' q = upd (flow s q) j (x / nthq (mws s) j) /\ (forall p, p <> q -> flow s' p = flow s p) /\
+    live_inv s' /\ mass_inv s'.
+Proof.
+  intros W L M N Hin H.
+  destruct (view_reads_parent s i v L N Hin) as (r & q & Ps & Rq & Rc & Ec & _).
+  pose proof (step_live _ _ _ L H) as L'. pose proof (step_mass _ _ _ M H) as M'.
+  simpl in H. unfold view_mass_write in H. rewrite N in H. inversion H; subst s'. clear H.
+  assert (Ec' : mass_cell v = vcell v).
+  { unfold mass_cell. destruct (vmass v) as [c|] eqn:E; [|reflexivity]. exact (M v (nth_error_In _ _ N) c E). }
+  rewrite Ec' in *.
+  destruct W as (_ & Hp & _). rewrite Ps in Hp. destruct Hp as [Hr Hinj].
+  exists q. split; [unfold pset_now; rewrite Ps; exact Rq|]. split; [|split; [|split; [exact L'|exact M']]].
+  - unfold flow; simpl. rewrite Ps, Rc. unfold write_cell. apply cellv_upd_same. eapply Hr; eauto.
+  - intros p Hne. unfold flow; simpl. rewrite Ps. destruct (r p) as [c|] eqn:Rp; [|reflexivity].
+    unfold write_cell. apply cellv_upd_other. intros E. apply Hne. subst c. eapply Hinj; eauto.
 Qed.
